@@ -211,7 +211,13 @@ func runRoute(t *testing.T, c spec.Case, e Em) {
 				if it.HoldAtPickupMs > 0 {
 					pickupHold.Store(id, time.Duration(it.HoldAtPickupMs)*time.Millisecond)
 				}
-				x, err := vp.MuxAccept(am, id, nonceA, it.Len)
+				var x vp.Xchg
+				var err error
+				if it.LateReadMs > 0 {
+					x, err = vp.MuxAcceptLate(am, id, time.Duration(it.LateReadMs)*time.Millisecond)
+				} else {
+					x, err = vp.MuxAccept(am, id, nonceA, it.Len)
+				}
 				o.PeerID, o.PeerNonce, o.PayloadOK, o.Extra, o.Err = x.PeerID, x.PeerNonce, x.PayloadOK, x.Extra, errStr(err)
 			} else if it.Raw || it.Reaccept {
 				lk := other(it.Dir) + fmt.Sprint(id)
@@ -260,8 +266,13 @@ func runRoute(t *testing.T, c spec.Case, e Em) {
 			e.Call(fmt.Sprintf("d%d", idx), "dial", o)
 			t0 := time.Now()
 			if p.Kind == "mux" {
-				x, err := vp.MuxDial(dm, id, nonceD, it.Len)
-				o.PeerID, o.PeerNonce, o.PayloadOK, o.Extra, o.Err = x.PeerID, x.PeerNonce, x.PayloadOK, x.Extra, errStr(err)
+				if it.LateReadMs > 0 {
+					o.Err = errStr(vp.MuxDialOneWay(dm, id, nonceD, it.Len))
+					o.PeerID, o.PeerNonce, o.PayloadOK = id, nonceA, true // (a one-way sender learns nothing about its peer)
+				} else {
+					x, err := vp.MuxDial(dm, id, nonceD, it.Len)
+					o.PeerID, o.PeerNonce, o.PayloadOK, o.Extra, o.Err = x.PeerID, x.PeerNonce, x.PayloadOK, x.Extra, errStr(err)
+				}
 			} else {
 				var r *vp.DialRes
 				if it.HoldAtGotInfoMs > 0 {
@@ -336,6 +347,24 @@ func runRoute(t *testing.T, c spec.Case, e Em) {
 				e.Note("reuse-first-pair-failed", fmt.Sprintf("id %d: accept err=%v dial err=%v", id, e1, e2))
 			}
 			time.Sleep(time.Until(t0.Add(time.Duration(it.ReuseAfterMs) * time.Millisecond)))
+		}
+		if it.CallbackShape && p.Kind == "grpc" {
+			cb := vp.GRPCAcceptServe(dg, id, "callback-"+nonceD)
+			if r := vp.GRPCDialPing(ag, id, 20*time.Second, true); r.DialErr != "" || r.PingErr != "" {
+				e.Note("callback-leg-failed", fmt.Sprintf("id %d: %s %s", id, r.DialErr, r.PingErr))
+			}
+			wg.Add(2)
+			go accept()
+			time.Sleep(gap / 2)
+			cb.Stop()
+			select {
+			case <-cb.Done:
+			case <-time.After(10 * time.Second):
+			}
+			time.Sleep(gap / 2)
+			go dial()
+			wg.Wait()
+			return
 		}
 		if it.LineUp && p.Kind == "mux" {
 			flag := &atomic.Bool{}
